@@ -1,2 +1,2 @@
-import NipyVerif.Model.C19D
-def main : IO Unit := NipyVerif.driverLoop NipyVerif.C19.runD
+import NipyVerif.Model.C19F
+def main : IO Unit := NipyVerif.driverLoop NipyVerif.C19.runF
